@@ -268,4 +268,24 @@ SEGMENTS = {
                   (r"self\.k_flush_meta_generic\(l1, &self\.l2cache, ", "self.k_flush_meta_generic(l1, "),
                   (r"self\.l2_slice_key_of_l1_off\(", "self.seg_k0_l2(")],
     ),
+    # ---- write-back of dirty slices incl. zero-once of a new metadata cluster
+    "FC": dict(
+        file="src/dev/cache.rs", fn="flush_cache_entries", start="FULL",
+        sig="pub(crate) fn seg_fc<B: Table>(&self, v: KVec<(usize, &KHandle<B>)>) -> Qcow2Result<()>",
+        rewrites=[
+            (r"HashMap::new\(\)", "KMap::new()"),
+            (r"Entry::Vacant\(slot\)", "KEntry::Vacant(slot)"),
+            (r"e\.value\(\)\.read\(\)\.await", "e.value().kread()"),
+            (r"self\.new_cluster\.read\(\)\.await", "self.new_cluster.kread()"),
+            (r"self\.new_cluster\.write\(\)\.await", "self.new_cluster.kread()"),
+            (r"cluster\.write\(\)\.await", "cluster.kwrite()"),
+            # futures are lazy: creating one sends nothing; join_all runs them
+            (r"f_vec\.push\(self\.call_fallocate\(", "f_vec.push(kdefer_fallocate(self, "),
+            (r"f_vec\.push\(self\.flush_table\(&\*\*cache, 0, cache\.byte_size\(\)\)\)", "f_vec.push(kdefer_flush(self, &**cache, cache.byte_size()))"),
+            (r"futures::future::join_all\(f_vec\)\.await", "kjoin(f_vec)", 2),
+            (r"let mut f_vec = Vec::new\(\);", "let mut f_vec = KVec::new();", 2),
+            (r"let mut cache_vec = Vec::new\(\);", "let mut cache_vec = KVec::new();"),
+            (r"return r;", "return r.map_err(Into::into);"),
+        ],
+    ),
 }
